@@ -191,16 +191,18 @@ def setup_task_paths(paths_in, paths_out, allowed_input_suffixes):
     for ii, po in enumerate(paths_out):
         if po.suffix != ".rtdc":
             paths_out[ii] = po.with_name(po.name + ".rtdc")
-    # Never remove an input file: an output path that (after the suffix
-    # correction) points to one of the input files would be unlinked below.
+    paths_temp = [po.with_suffix(".rtdc~") for po in paths_out]
+
+    # Never remove an input file: an output path (after the suffix
+    # correction) or its temporary path that points to one of the input
+    # files would be unlinked below.
     inputs_resolved = [pi.resolve() for pi in paths_in]
-    for po in paths_out:
+    for po in paths_out + paths_temp:
         if po.resolve() in inputs_resolved:
             raise ValueError(
-                f"Output path '{po}' is identical to an input path!")
+                f"Output or temporary path '{po}' is identical to an "
+                f"input path!")
     [po.unlink() for po in paths_out if po.exists()]
-
-    paths_temp = [po.with_suffix(".rtdc~") for po in paths_out]
     [pt.unlink() for pt in paths_temp if pt.exists()]
 
     # convert lists back to paths
